@@ -81,3 +81,11 @@ package verifspec
 //@   abstract_rest
 //@   throws_when !returnTuple && type.kind != 20 && (value.$nil || value.constructor != type)
 //@   throws_when !returnTuple && value.$nil          // a nil interface value has no dynamic type: also for interface targets
+
+// make(chan T, n) ($Chan): a negative or oversized buffer size panics, otherwise the channel is open.
+//@ js types.js $Chan
+//@ property C08
+//@   param elem: desc, capacity: int
+//@   abstract_rest
+//@   throws_when capacity < 0 || capacity > 2147483647
+//@   throws_msg makechan: size out of range
